@@ -61,6 +61,7 @@ class Env:
         self.n_nontrivial = 0
         self.inputs: list[str] = []
         self.stop_on_violation = False
+        self.max_violations = 3  # per path: a broken tree fails many clauses, each costing a model search
         self.assumptions: list[str] = []
 
     # -- modules of the repo -------------------------------------------------
@@ -333,7 +334,7 @@ class Env:
         )
         v.all_values = vals
         self.violations.append(v)
-        if self.stop_on_violation:
+        if self.stop_on_violation or len(self.violations) >= self.max_violations:
             raise CheckFailed(label)
         return False
 
